@@ -1078,6 +1078,10 @@ asn1c_lang_C_OpenType(arg_t *arg, asn1c_ioc_table_and_objset_t *opt_ioc,
         if(!cell->value) continue;
 
         asn1p_expr_t *m = asn1p_expr_clone(cell->value, 0);
+        /* A built-in type gives its name to the member: OCTET_STRING in XER */
+        for(char *p = m->Identifier; p && *p; p++) {
+            if(*p == ' ') *p = '_';
+        }
         if (asn1p_lookup_child(open_type_choice, m->Identifier))
             m->_mark |= TM_SKIPinUNION;
         asn1p_expr_add(open_type_choice, m);
